@@ -52,6 +52,7 @@ type Engine struct {
 	contractFiles []string
 
 	heapSortHint map[string]Sort
+	heapTypeHint map[string]types.Type
 	modsMemo     map[*ssa.Function]map[string]bool
 	modsBusy     map[*ssa.Function]bool
 
@@ -78,7 +79,7 @@ var loadPatterns = []string{
 func NewEngine(repo string) (*Engine, error) {
 	e := &Engine{repo: repo, u: NewUniverse(), contracts: map[string]*Contract{}, loopContracts: map[string]*Contract{},
 		specFuns: map[string]*Contract{}, ghostVars: map[string]Sort{}, specSorts: map[string]Sort{}, specAccessors: map[string]accInfo{},
-		chanInvs: map[string]*Contract{}, callbacks: map[string]*Contract{}, callsites: map[string][]*Contract{}, impls: map[string]*Contract{}, footprints: map[string][]string{}, fpBusy: map[string]bool{}, immutable: map[string]bool{}, guards: map[string]string{}, ghostHooks: map[string][]*Contract{}, globalConsts: map[string]string{}, heapSortHint: map[string]Sort{},
+		chanInvs: map[string]*Contract{}, callbacks: map[string]*Contract{}, callsites: map[string][]*Contract{}, impls: map[string]*Contract{}, footprints: map[string][]string{}, fpBusy: map[string]bool{}, immutable: map[string]bool{}, guards: map[string]string{}, ghostHooks: map[string][]*Contract{}, globalConsts: map[string]string{}, heapSortHint: map[string]Sort{}, heapTypeHint: map[string]types.Type{},
 		modsMemo: map[*ssa.Function]map[string]bool{}, modsBusy: map[*ssa.Function]bool{}, globals: map[*ssa.Global]int{},
 		funcs: map[*ssa.Function]int{}, ifaceTypes: map[string]types.Type{}, cardSorts: map[Sort]bool{}, ufs: map[string]string{},
 		allFns: map[string]*ssa.Function{}, spkgs: map[string]*ssa.Package{}}
@@ -798,7 +799,10 @@ func (e *Engine) Prelude() string {
 	if e.needStrOf {
 		b.WriteString("(declare-fun str_of ((Array Int Int) Int Int) Str)\n")
 		b.WriteString("(assert (forall ((r (Array Int Int)) (o Int) (n Int)) (! (=> (and (>= n 0) (<= n 1152921504606846976)) (= (strlen (str_of r o n)) n)) :pattern ((str_of r o n)))))\n")
-		b.WriteString("(assert (forall ((r (Array Int Int)) (o Int) (n Int) (i Int)) (! (=> (and (<= 0 i) (< i n)) (= (strat (str_of r o n) i) (select r (+ o i)))) :pattern ((strat (str_of r o n) i)))))\n")
+		b.WriteString("(assert (forall ((r (Array Int Int)) (o Int) (n Int) (i Int)) (! (=> (and (<= 0 i) (< i n) (<= 0 (select r (+ o i))) (< (select r (+ o i)) 256)) (= (strat (str_of r o n) i) (select r (+ o i)))) :pattern ((strat (str_of r o n) i)))))\n")
+		if e.needSubstr {
+			b.WriteString("(assert (forall ((r (Array Int Int)) (o Int) (n Int) (l Int) (h Int)) (! (=> (and (<= 0 l) (<= l h) (<= h n)) (= (substr (str_of r o n) l h) (str_of r (+ o l) (- h l)))) :pattern ((substr (str_of r o n) l h)))))\n")
+		}
 	}
 	us := make([]string, 0, len(e.ufs))
 	for k := range e.ufs {
